@@ -18,8 +18,8 @@ ID = 'C11'
 LEVEL = 'exploration'
 TECHNIQUE = 'bounded exhaustive enumeration of shapes x targeted-token subsets x terminal files x parameters, list-based reference editor'
 
-TRACE_WORDS = ['*T*-1', '*', '*U*', '0', '*-2', '*ICH*=3']
-CONS_LABELS = ['NP-SBJ-1', 'S=2', 'VP', 'WHNP-1', 'SBAR-TMP=2-3']
+TRACE_WORDS = ['*T*-1', '*', '*U*', '0', '*-2', '*ICH*=3', '*T*-12', '*EXP*=10-114']
+CONS_LABELS = ['NP-SBJ-1', 'S=2', 'VP', 'WHNP-1', 'SBAR-TMP=2-3', 'WHNP-12', 'NP=10-114']
 TRACE_PARAMS = [{}, {'keepall': True}, {'keep': '*T*'}, {'keep': '*T*,*'}, {'keepall': True, 'keepcoindex': True},
                 {'keep': '*T*,0', 'keepcoindex': True}]
 _counter = itertools.count()
@@ -33,7 +33,7 @@ def plan(tier, seed):
     chunks = sweep.shape_chunks(dspecs, per_chunk=16, kind='delete')
     chunks += sweep.shape_chunks(fspecs, per_chunk=2, kind='files', plen=3 if tier == 'quick' else 4)
     return {
-        'chunks': chunks,
+        'chunks': chunks + [{'kind': 'clipipe'}],
         'rule': 'delete: every hierarchy over n tokens (<= u unary) x every subset of token positions being '
                 'punctuation (punctuation_delete, quiet on/off), traces (ptb_delete_traces x %d parameter sets), '
                 'each single token (delete_terminal), filter_by_length x {lt,gt,eq} x 0..n+1; files: every '
@@ -44,7 +44,8 @@ def plan(tier, seed):
                 'non-trivial = distinct cases in which the reference edits at least one token' % len(TRACE_PARAMS),
         'bound': 'delete: ' + ', '.join('n=%d:u<=%d' % s for s in dspecs) + '; files: ' + ', '.join('n=%d:u<=%d' % s for s in fspecs),
         'exhaustive': True,
-        'assumptions': ['insert index = 1-based position in the resulting sentence, processed ascending (DESIGN D8)',
+        'assumptions': ['driver differential (vt/clipipe.py): `treetools transform` with the pipelines that involve this operation, with and without --split, on a six-sentence corpus must write what the named functions give when applied by the harness in the given order',
+                        'insert index = 1-based position in the resulting sentence, processed ascending (DESIGN D8)',
                         'indices on POS tags of ordinary tokens are not rewritten (DESIGN D7)',
                         'sentences consisting only of traces are outside the scope (like punctuation-only ones)',
                         'every terminal file gets a fresh file name (name reuse is C18)'],
@@ -459,6 +460,9 @@ def check_substitute(mtj, entries, with_pos, quiet_flag):
 
 
 def check_case(case):
+    if 'clipipe' in case:
+        from .. import clipipe
+        return clipipe.replay(case)
     with quiet():
         _via[0] = case.get('via')
         op = case['op']
@@ -478,6 +482,11 @@ def check_case(case):
 
 
 def run_chunk(chunk):
+    if chunk.get('kind') == 'clipipe':
+        from .. import clipipe
+        res = Result()
+        clipipe.run_property(ID, res)
+        return res
     res = Result()
 
     def take(vs, nontriv, key):
@@ -503,7 +512,7 @@ def run_chunk(chunk):
                         vs, nt = check_punct(mt.to_json(), q)
                         take(vs, nt, ('p', model.shape_str(sh), sub, q))
                     if sub and len(sub) < n:
-                        words = [TRACE_WORDS[i % len(TRACE_WORDS)] if i in sub else 'w%d' % (i + 1) for i in range(n)]
+                        words = [TRACE_WORDS[(i + 3 * len(sub) + sum(sub)) % len(TRACE_WORDS)] if i in sub else 'w%d' % (i + 1) for i in range(n)]
                         pos = ['-NONE-' if i in sub else 'P%d-1' % (i + 1) for i in range(n)]
                         mt = model.MT(1, model.mk_tokens(n, words=words, pos=pos), root)
                         for params in TRACE_PARAMS:
